@@ -10,7 +10,9 @@ EVID = os.environ.get("VERIF_EVIDENCE_DIR", os.path.join(VERIF, "evidence"))
 REPLAYS = os.path.join(VERIF, "replays")
 KNOWN = os.path.join(VERIF, "known-findings.txt")
 
-KANI_FLAGS = ["-Z", "function-contracts", "-Z", "stubbing", "-Z", "unstable-options"]
+# --no-assertion-reach-checks: Kani's per-assertion reachability side checks multiply CBMC's trace
+# output (10-30x slower harnesses); reachability is guarded by explicit kani::cover! instead.
+KANI_FLAGS = ["-Z", "function-contracts", "-Z", "stubbing", "-Z", "unstable-options", "--no-assertion-reach-checks"]
 # harness kinds, encoded in the harness name:  c32_p_x  c32_b_x  c32_tb_x  c32_tp_x  c32_canary_x
 KIND_RE = re.compile(r"^(c\d{2,3})_(p|b|tp|tb|canary)_(\w+)$")
 QUICK_KINDS = ("p", "b", "canary")
@@ -32,17 +34,21 @@ def sh(cmd, cwd=None, env=None, timeout=None, logfile=None):
     if env:
         e.update(env)
     t0 = time.time()
+    import signal
+    proc = subprocess.Popen(cmd, cwd=cwd, env=e, stdout=subprocess.PIPE, stderr=subprocess.STDOUT,
+                            text=True, errors="replace", start_new_session=True)
     try:
-        p = subprocess.run(cmd, cwd=cwd, env=e, stdout=subprocess.PIPE, stderr=subprocess.STDOUT,
-                           timeout=timeout, text=True, errors="replace")
-        out, rc = p.stdout, p.returncode
-    except subprocess.TimeoutExpired as ex:
-        out = (ex.stdout or "")
-        if isinstance(out, bytes):
-            out = out.decode(errors="replace")
-        out += "\n[driver] TIMEOUT after %ss\n" % timeout
+        out, _ = proc.communicate(timeout=timeout)
+        rc = proc.returncode
+    except subprocess.TimeoutExpired:
+        # kill only our own process group (cargo-kani, kani-driver, cbmc, solvers)
+        try:
+            os.killpg(proc.pid, signal.SIGKILL)
+        except Exception:
+            pass
+        out, _ = proc.communicate()
+        out = (out or "") + "\n[driver] TIMEOUT after %ss\n" % timeout
         rc = 124
-        subprocess.run(["pkill", "-f", "cbmc --no-malloc"], stdout=subprocess.DEVNULL, stderr=subprocess.DEVNULL)
     if logfile:
         with open(logfile, "w") as f:
             f.write("$ " + " ".join(cmd) + "\n" + out)
